@@ -410,6 +410,7 @@ def EvOK (w : World) : Event → Prop
   | .strayAck channel seq _ => channel ≠ w.c.config.proto.channel ∨ w.c.inflight.find? seq = none
   | .strayTimeout channel seq => channel ≠ w.c.config.proto.channel ∨ w.c.inflight.find? seq = none
   | .donate sender _ => sender ≠ w.self
+  | .reseq _ => False
   | _ => True
 
 /-- the history counters after an event -/
@@ -622,6 +623,7 @@ theorem step_winv {w : World} {g : WGhost} (e : Event) (hr : CReach w.c) (hi : W
       intro X
       have : ¬ w.self = to := fun e => ht e.symm
       simp [Bal.add_apply, this]
+  | reseq n => exact absurd hok (by simp [EvOK])
 
 /-! ## every history -/
 
@@ -712,6 +714,7 @@ def evOKb (w : World) : Event → Bool
   | .strayAck channel seq _ => channel != w.c.config.proto.channel || (w.c.inflight.find? seq).isNone
   | .strayTimeout channel seq => channel != w.c.config.proto.channel || (w.c.inflight.find? seq).isNone
   | .donate sender _ => sender != w.self
+  | .reseq _ => false
   | _ => true
 
 theorem evOKb_sound {w : World} {e : Event} (h : evOKb w e = true) : EvOK w e := by
@@ -730,6 +733,7 @@ theorem evOKb_sound {w : World} {e : Event} (h : evOKb w e = true) : EvOK w e :=
     simp only [Bool.or_eq_true, bne_iff_ne, ne_eq, Option.isNone_iff_eq_none] at h
     exact h
   case donate sender coin => simpa using h
+  case reseq n => cases h
 
 def allOKb : World → List Event → Bool
   | _, [] => true
